@@ -280,9 +280,9 @@ pub fn run(tier: Tier) -> Report {
             let _g = crate::engine::watch(|| format!("C05 heads {}..", ci * 16));
             for (i, (h, nf, allp)) in chunk.iter().enumerate() {
                 let ord = (ci * 16 + i) as u64;
-                let before = rep.violations.len();
+                let before = rep.violation_instances();
                 check_head(h, *nf, &b, ord, &mut rep, *allp);
-                if rep.violations.len() == before && ord % 293 == 0 {
+                if rep.violation_instances() == before && ord % 293 == 0 {
                     for front in FRONTS {
                         crate::engine::validate_case(&mut rep, replay, json!({"head": hex(h), "nfields": nf, "front": front, "p": h.len() / 2, "tail": ""}));
                         crate::engine::validate_case(&mut rep, replay, json!({"head": hex(h), "nfields": nf, "front": front, "p": h.len(), "tail": hex(b"X")}));
